@@ -18,88 +18,127 @@ type armAccess struct {
 	pos    ast.Node
 }
 
-// switchArms analyses the case clauses of the token switch in fd.
+// switchArms analyses the case clauses of the token switch in fd, or - when fd has none - in an unexported method it
+// calls (two levels). What an arm reads and writes includes what the unexported methods it calls on the same receiver read
+// and write (one level), so an arm that is a single call `it.addChunkIndex(record)` is seen through.
 func switchArms(g *goLayouts, fd *ast.FuncDecl, recv string) []armAccess {
 	var arms []armAccess
-	ast.Inspect(fd.Body, func(n ast.Node) bool {
-		sw, ok := n.(*ast.SwitchStmt)
-		if !ok || sw.Tag == nil || !strings.Contains(strings.ToLower(types.ExprString(sw.Tag)), "token") {
+	hosts := []*ast.FuncDecl{fd}
+	seenHost := map[*ast.FuncDecl]bool{fd: true}
+	for i := 0; i < len(hosts) && i < 8; i++ {
+		ast.Inspect(hosts[i].Body, func(n ast.Node) bool {
+			if ce, ok := n.(*ast.CallExpr); ok {
+				if fn := g.calleeOf(ce); fn != nil && !fn.Exported() {
+					if hd := g.decls[fn]; hd != nil && hd.Body != nil && hd.Recv != nil && !seenHost[hd] && recvTypeName(g, hd) == recvTypeName(g, fd) {
+						seenHost[hd] = true
+						hosts = append(hosts, hd)
+					}
+				}
+			}
 			return true
-		}
-		for _, st := range sw.Body.List {
-			cc := st.(*ast.CaseClause)
-			a := armAccess{reads: map[string]bool{}, writes: map[string]bool{}, pos: cc}
-			var labels []string
-			for _, e := range cc.List {
-				labels = append(labels, types.ExprString(e))
+		})
+	}
+	// accesses of a node, looking one level into methods called on the receiver
+	var collect func(node ast.Node, recv string, a *armAccess, depth int)
+	collect = func(node ast.Node, recv string, a *armAccess, depth int) {
+		written := map[ast.Node]bool{}
+		ast.Inspect(node, func(m ast.Node) bool {
+			switch x := m.(type) {
+			case *ast.AssignStmt:
+				for _, l := range x.Lhs {
+					if f := recvField(l, recv); f != "" {
+						a.writes[f] = true
+						written[l] = true
+					}
+				}
+			case *ast.CallExpr:
+				if sel, ok := x.Fun.(*ast.SelectorExpr); ok {
+					if f := recvField(sel.X, recv); f != "" && (sel.Sel.Name == "Set" || sel.Sel.Name == "Reset") {
+						a.writes[f] = true
+						written[sel.X] = true
+					}
+				}
+				if depth > 0 {
+					if fn := g.calleeOf(x); fn != nil && !fn.Exported() {
+						if hd := g.decls[fn]; hd != nil && hd.Body != nil && hd.Recv != nil {
+							if sel, ok := x.Fun.(*ast.SelectorExpr); ok {
+								if id, ok := sel.X.(*ast.Ident); ok && id.Name == recv {
+									collect(hd.Body, recvName(hd), a, depth-1)
+								}
+							}
+						}
+					}
+				}
 			}
-			a.label = strings.Join(labels, ",")
-			if a.label == "" {
-				a.label = "default"
+			return true
+		})
+		ast.Inspect(node, func(m ast.Node) bool {
+			if written[m] {
+				return false
 			}
-			written := map[ast.Node]bool{}
-			ast.Inspect(cc, func(m ast.Node) bool {
-				switch x := m.(type) {
-				case *ast.AssignStmt:
-					for _, l := range x.Lhs {
-						if f := recvField(l, recv); f != "" {
-							a.writes[f] = true
-							written[l] = true
-							// `it.x = append(it.x, ...)` also reads it.x, but only to extend it: order-insensitive w.r.t. itself
-						}
-					}
-				case *ast.CallExpr:
-					if sel, ok := x.Fun.(*ast.SelectorExpr); ok {
-						if f := recvField(sel.X, recv); f != "" && (sel.Sel.Name == "Set" || sel.Sel.Name == "Reset") {
-							a.writes[f] = true
-							written[sel.X] = true
-						}
-					}
+			if se, ok := m.(*ast.SelectorExpr); ok {
+				if f := recvField(se, recv); f != "" {
+					a.reads[f] = true
 				}
+			}
+			return true
+		})
+		// the self-read inside `it.x = append(it.x, v)` is not an inter-arm dependency
+		ast.Inspect(node, func(m ast.Node) bool {
+			as, ok := m.(*ast.AssignStmt)
+			if !ok || len(as.Lhs) != 1 || len(as.Rhs) != 1 {
 				return true
-			})
-			ast.Inspect(cc, func(m ast.Node) bool {
-				if written[m] {
-					return false
-				}
-				if se, ok := m.(*ast.SelectorExpr); ok {
-					if f := recvField(se, recv); f != "" {
-						// the self-read inside `it.x = append(it.x, v)` is not an inter-arm dependency
-						a.reads[f] = true
-					}
-				}
+			}
+			ce, ok := as.Rhs[0].(*ast.CallExpr)
+			if !ok || !g.isBuiltin(ce, "append") || len(ce.Args) == 0 {
 				return true
-			})
-			// remove self-append reads
-			ast.Inspect(cc, func(m ast.Node) bool {
-				as, ok := m.(*ast.AssignStmt)
-				if !ok || len(as.Lhs) != 1 || len(as.Rhs) != 1 {
+			}
+			lf, rf := recvField(as.Lhs[0], recv), recvField(ce.Args[0], recv)
+			if lf != "" && lf == rf {
+				count := 0
+				ast.Inspect(node, func(k ast.Node) bool {
+					if se, ok := k.(*ast.SelectorExpr); ok && recvField(se, recv) == lf {
+						count++
+					}
 					return true
+				})
+				if count <= 2 {
+					delete(a.reads, lf)
 				}
-				ce, ok := as.Rhs[0].(*ast.CallExpr)
-				if !ok || !g.isBuiltin(ce, "append") || len(ce.Args) == 0 {
-					return true
-				}
-				lf, rf := recvField(as.Lhs[0], recv), recvField(ce.Args[0], recv)
-				if lf != "" && lf == rf {
-					// only drop the read if the field is read nowhere else in the arm
-					count := 0
-					ast.Inspect(cc, func(k ast.Node) bool {
-						if se, ok := k.(*ast.SelectorExpr); ok && recvField(se, recv) == lf {
-							count++
-						}
-						return true
-					})
-					if count <= 2 {
-						delete(a.reads, lf)
-					}
-				}
+			}
+			return true
+		})
+	}
+	for _, host := range hosts {
+		hrecv := recvName(host)
+		ast.Inspect(host.Body, func(n ast.Node) bool {
+			if len(arms) > 0 {
+				return false
+			}
+			sw, ok := n.(*ast.SwitchStmt)
+			if !ok || sw.Tag == nil || !strings.Contains(strings.ToLower(types.ExprString(sw.Tag)), "token") {
 				return true
-			})
-			arms = append(arms, a)
+			}
+			for _, st := range sw.Body.List {
+				cc := st.(*ast.CaseClause)
+				a := armAccess{reads: map[string]bool{}, writes: map[string]bool{}, pos: cc}
+				var labels []string
+				for _, e := range cc.List {
+					labels = append(labels, types.ExprString(e))
+				}
+				a.label = strings.Join(labels, ",")
+				if a.label == "" {
+					a.label = "default"
+				}
+				collect(cc, hrecv, &a, 1)
+				arms = append(arms, a)
+			}
+			return false
+		})
+		if len(arms) > 0 {
+			break
 		}
-		return false
-	})
+	}
 	return arms
 }
 
